@@ -60,6 +60,19 @@ func TestC11(t *testing.T) {
 		if diff := compareTraces(traceA, traceB); diff != "" {
 			t.Fatalf("two replicas diverged: %s\nhistory:\n%s", diff, jsonStr(d.log))
 		}
+		// replicas with a different process history: one whose process restarts between blocks (new
+		// application instance over the same database), one that also serves mempool checks, gas
+		// simulations and queries between blocks
+		restarts := map[int]bool{}
+		for i := 0; i < rapid.IntRange(1, 3).Draw(t, "nRestarts"); i++ {
+			restarts[rapid.IntRange(0, nb-2).Draw(t, fmt.Sprintf("restartAfter%d", i))] = true
+		}
+		if diff := compareTraces(traceA, ReplayAs(d.hist, ReplicaOpts{RestartAfter: restarts})); diff != "" {
+			t.Fatalf("a replica that restarted after blocks %v diverged from one that kept running: %s\nhistory:\n%s", restarts, diff, jsonStr(d.log))
+		}
+		if diff := compareTraces(traceA, ReplayAs(d.hist, ReplicaOpts{Traffic: true})); diff != "" {
+			t.Fatalf("a replica that also served CheckTx / Simulate / queries between blocks diverged: %s\nhistory:\n%s", diff, jsonStr(d.log))
+		}
 		logDiffs := 0
 		for i := range traceA {
 			for j := range traceA[i].TxLogs {
